@@ -11,7 +11,8 @@
      max(., 1);  math.ceil(math.log2(a / 2^t)) is modelled exactly on
      rationals: the least k (possibly negative) with a <= 2^t * 2^k, which is
      Z.log2_up a - t for a >= 1 (agreement with libm is tested, not proved);
-   * three internal assertions; each becomes Crash AssertionError. *)
+   * three internal assertions; each becomes Crash AssertionError (since /repo
+     1758f7a none of them can fail: PyrScalesProofs.no_assertion_can_fail). *)
 From Coq Require Import ZArith List Bool Lia.
 From NGS Require Import Val Ints.
 Import ListNotations.
@@ -62,6 +63,14 @@ Definition aniso0 (d : t3) (l : Z) : t3 :=
   let M := max3 d in map3 (fun di => Z.max 0 (M - di - l)) d.
 Definition count_nz (v : t3) : Z := sum3 (map3 (fun f => if f =? 0 then 0 else 1) v).
 
+(* anisotropy_factors.index(max(anisotropy_factors)) *)
+Definition argmax_first (v : t3) : axis :=
+  let '(x, y, z) := v in
+  if (y <=? x) && (z <=? x) then AX else if z <=? y then AY else AZ.
+Definition sub_at (a : axis) (delta : Z) (v : t3) : t3 :=
+  let '(x, y, z) := v in
+  match a with AX => (x - delta, y, z) | AY => (x, y - delta, z) | AZ => (x, y, z - delta) end.
+
 (* the anisotropy factors after the "excess" reduction; the flag tells
    whether  assert sum_anisotropy_factors <= 3 * target_chunk_exponent  held *)
 Definition aniso_reduced (d : t3) (t l : Z) : outcome t3 :=
@@ -72,7 +81,11 @@ Definition aniso_reduced (d : t3) (t l : Z) : outcome t3 :=
     if n =? 0 then Crash ZeroDivisionError else
     let red := ceil_div excess n in
     let a' := map3 (fun f => Z.max (f - red) 0) a in
-    if sum3 a' <=? 3 * t then Ok a' else Crash AssertionError
+    (* /repo 1758f7a: a factor smaller than the reduction was clipped to zero,
+       so less than the excess was removed: the remainder is taken from the
+       largest factor (list.index(max(...)): the first one) *)
+    let a'' := if 3 * t <? sum3 a' then sub_at (argmax_first a') (sum3 a' - 3 * t) a' else a' in
+    if sum3 a'' <=? 3 * t then Ok a'' else Crash AssertionError
   else Ok a.
 
 (* exponents of the chunk sizes of level l (chunk size = 2^exponent) *)
